@@ -32,7 +32,7 @@ CHECKS = {
         "Every word over 10 attempt outcomes up to length 3 (thorough 4-5) x ~290 parameter combinations (each parameter present and "
         "absent, constructor default) is run through the real Retry on a virtual-time event loop, on a fresh instance and after each of "
         "5 earlier calls through the same (shared, registered) instance; number of delegate calls, the pause before each, and the identity "
-        "of the final result/exception are compared with a reference. Also: operations documented as retryable are wrapped by Retry.",
+        "of the final result/exception are compared with a reference. Also: operations documented as retryable are wrapped by Retry, with the documented default for retry-until-success.",
         "Trusted: the reference (40 lines, from docs/track.rst and the statement), the virtual loop (mc/vloop.py). Word length bound stated in evidence.",
     ),
     "C17": (
@@ -127,7 +127,9 @@ CHECKS = {
         "stateless exploration of the real request-context code on a virtual asyncio loop: all context trees of a grammar x all orders of "
         "simultaneously due callbacks (deviation-bounded), plus the real Composite runner and two concurrent clients over the simulated node",
         "DESIGN.md §4 C18",
-        "L1: ~16k trees of nested contexts (sequential/concurrent children, idle time after the last request, failing requests) through the "
+        "L0: the aiohttp trace signals of the real client from EsClientFactory.create_async fired in every sequence aiohttp can emit for one "
+        "request; L1: ~16k trees of nested contexts (sequential/concurrent children, idle time after the last request, failing requests, "
+        "contexts without any request) through the "
         "real RequestContextHolder/Manager; L2: 8 stream structures x 4^3 sub-operation kinds x 3 connection limits through the real "
         "Composite/RequestTiming/raw-request/sleep runners and the real Rally async client; L3: pairs of composites on two clients in one "
         "loop. Every tie between timers due at the same virtual instant is a choice point (bound 1 quick, 2 thorough). Each context must "
@@ -147,7 +149,7 @@ CHECKS = {
         "receive; processing >= service >= 0 and exact; throttled: not issued before the scheduled time, latency = response - scheduled "
         "time, the scheduled time itself = k * clients * weight / target (independent reference); unthrottled: latency = service time. "
         "Service times include one that ends less than a millisecond before the next slot; a completed-by family runs an unthrottled "
-        "completing task next to a throttled sibling on the same worker.",
+        "completing task next to a throttled sibling on the same worker; a user-defined non-simple scheduler without target-throughput.",
         "Trusted: mc/vloop.py, mc/fakees.py, mc/loadgen.py (harness, 200 lines). Thread interleavings of the sample queue are explored in C07. Exact equalities use binary-fraction times.",
     ),
     "C05": (
@@ -159,8 +161,8 @@ CHECKS = {
         "self-completing-runner tasks x clients {1,2,4} x {unthrottled, deterministic, seeded poisson} x targets (ops/s, docs/s, interval, "
         "unit mismatch) x 4 service-time words: exact request counts and warm-up flags, period end (one straddler per client), progress "
         "monotone in [0,1] ending at 1, sample types never regress, scheduled times monotone and weight*C/T apart, ramp-up delay; explicit "
-        "iterations on finite parameter sources below/at/above the iteration count; ramp-up inside parallel elements whose allocations "
-        "come from the real Allocator.",
+        "iterations on finite parameter sources below/at/above the iteration count; a warm-up period without a time period; fractional "
+        "string targets; ramp-up inside parallel elements whose allocations come from the real Allocator.",
         "Trusted: as C04. Poisson pacing compared with the same seeded source (single client) or for monotonicity.",
     ),
     "C01": (
@@ -189,7 +191,10 @@ CHECKS = {
         "all schedules within 1 deviation (2 on the stacked-rows and end-of-race shapes, incl. preemption of the wake-up handler by the executor thread). "
         "Oracle: per (task, client) exactly one latency / service_time / processing_time record per logged request with the right labels and "
         "service-time values, one service_time record per dependent sub-request under its own operation, nothing extra; fewer only with "
-        "downsampling or a full queue; throughput present and identical with and without downsampling.",
+        "downsampling or a full queue; throughput present, identical with and without downsampling, and every stored value equal to a "
+        "one-batch reference of all samples (S15: 40 s of short requests across the periodic tick). The executor thread can be preempted "
+        "between the lines of Sampler.add (bound 1 on the tie shapes). A separate layer enumerates put / flush sequences on the "
+        "Elasticsearch-backed store's buffer.",
         "Trusted: as C01, plus the emulation of BenchmarkCoordinator's bulk_add hand-over by the environment.",
     ),
     "C09": (
@@ -214,7 +219,7 @@ CHECKS = {
         "explicit-state search (canonical state hashing, replay from the initial state, no deviation bound) over the real MechanicActor, "
         "Dispatcher, NodeMechanicActor and Mechanic helper on the simulated transport, with recording stub supplier/provisioner/launcher",
         "DESIGN.md §4 C12",
-        "8 target-host lists (local, remote, several nodes per host, mixed, the same host repeated non-adjacently) x {no fault, launcher fails on each host, provisioning fails for the last node of a multi-node host, a member daemon is shut "
+        "8 target-host lists (local, remote, several nodes per host, mixed, the same host repeated non-adjacently) x {no fault, launcher fails on each host, provisioning fails for the last node of a multi-node host, stopping fails on a host, a member daemon is shut "
         "down at any time before its nodes have started (semantics validated against the real Thespian: listeners get the convention "
         "update, its actors die, parents get ChildActorExited, later creations abort)} x {a non-target daemon, a daemon without ip capability joins} x preserve-install, plus external clusters: ALL reachable "
         "states under every order of message deliveries (FIFO per pair), daemon joins (before or after the Dispatcher registers) and (thorough) periodic flush timers. Invariants: "
